@@ -23,8 +23,9 @@ package queue
 //@   requires [wired] queue != nil && ctx != nil
 // stepping stones for the release case, where the pending queue is pushed to twice
 //@   at Push #1
-//@     assert [parked-keys-other-than-the-released-one-stay-in-flight] forall k K :: in(k, onHoldQueue) && k != released.Key ==> has(addr(onHold), k)
+//@     assert [parked-keys-other-than-the-released-one-stay-in-flight; using others-stay-by-value, parked-only-while-in-flight] forall k K :: in(k, onHoldQueue) && k != released.Key ==> has(addr(onHold), k)
 //@   at Push #2
+//@     assert [parked-keys-are-in-flight-once-the-released-one-is-flushed; using others-stay-by-value, parked-only-while-in-flight] forall k K :: in(k, onHoldQueue) ==> has(addr(onHold), k)
 //@     assert [released-key-not-in-flight] forall i int :: 0 <= i && i < len(onHold.items) ==> onHold.items[i] != released.Key
 //@     assert [in-flight-never-pending-between-pushes] forall i int, j int :: 0 <= i && i < len(onHold.items) && 0 <= j && j < len(pqueue.items) ==> onHold.items[i] != pqueue.items[j].Key
 //@   loop #1
